@@ -245,6 +245,10 @@ func registerRESTModels(u *Unit) {
 			fx.ctxSetInt(st, ctx, ctxNBody, add(sel(sel(st.H, ctx), num(ctxNBody)), num(1)))
 			return nilError()
 		})
+	u.reg("github.com/swaggo/fasthttp-swagger.WrapHandler", "returns the swagger documentation handler: an external function value about which nothing is assumed", nil,
+		func(fx *FX, st *State, c *CallCtx) Val {
+			return VFunc{Id: num(-1), Env: num(0)}
+		})
 	u.reg("strings.Contains", "returns contains(s, sub) (uninterpreted)", nil,
 		func(fx *FX, st *State, c *CallCtx) Val {
 			fx.compareCheck(st, c.V, c.C.Args[0], c.C.Args[1])
